@@ -8,6 +8,7 @@ import (
 	"sort"
 	"strings"
 
+	"verifharness/internal/gen"
 	"verifharness/internal/impl"
 )
 
@@ -125,11 +126,39 @@ func (c *Ctx) checkArgMaps(sdl string, report bool) {
 		coerce    bool
 	}
 	var refs []ref
+	dist := map[string]int{}
 	for _, d := range docs {
-		for _, v := range argVarSets {
-			for _, co := range []string{"0", "1"} {
-				reqs = append(reqs, "argmapgo "+impl.HexW([]byte(sdl))+" "+impl.HexW([]byte(d))+" 0 "+co+" "+v)
-				refs = append(refs, ref{d, v, co == "1"})
+		nOps := strings.Count(d, "query ") + strings.Count(d, "mutation ")
+		for oi := 0; oi < max(nOps, 1); oi++ {
+			for _, v := range argVarSets {
+				for _, co := range []string{"0", "1"} {
+					reqs = append(reqs, "argmapgo "+impl.HexW([]byte(sdl))+" "+impl.HexW([]byte(d))+" "+fmt.Sprint(oi)+" "+co+" "+v)
+					refs = append(refs, ref{d, v, co == "1"})
+					dist[fmt.Sprintf("hand-written family: operation %d executed", oi)]++
+				}
+			}
+		}
+	}
+	// generated family: generated schemas, generated valid documents, every operation executed with
+	// generated conforming variables (coerced first)
+	nSchemas := c.Pick(120, 1200)
+	for si := 0; si < nSchemas; si++ {
+		gs := gen.GenSchema(c.R, c.R.Intn(9))
+		gsdl := gs.SDL()
+		for di := 0; di < 4; di++ {
+			d := gen.GenDoc(c.R, gs, 1+c.R.Intn(5))
+			for oi, op := range d.Ops {
+				for j := 0; j < 2; j++ {
+					m, _ := gen.GenVars(c.R, gs, d.Text, op.Name, true)
+					v := impl.SexpGoVal(m)
+					reqs = append(reqs, "argmapgo "+impl.HexW([]byte(gsdl))+" "+impl.HexW([]byte(d.Text))+" "+fmt.Sprint(oi)+" 1 "+v)
+					refs = append(refs, ref{d.Text, v, true})
+				}
+				dist[fmt.Sprintf("generated family: operation with %d variables executed", min(len(op.Vars), 6))]++
+			}
+			dist[fmt.Sprintf("generated family: document with %d operations", min(len(d.Ops), 4))]++
+			if d.Fragments > 0 {
+				dist["generated family: document with fragments"]++
 			}
 		}
 	}
@@ -167,11 +196,29 @@ func (c *Ctx) checkArgMaps(sdl string, report bool) {
 			}
 		}
 	}
-	st.docs = len(docs)
+	st.docs = len(docs) + nSchemas*4
 	got := c.Driver.Map(dreqs)
 	for i := range got {
 		st.sites++
 		c.Ev.Traces++
+		if k := strings.Index(dreqs[i], "(list "); k >= 0 {
+			// the request is `argmap (list <argdefs|nodef> <args> <vardefs> <vars>)`
+			rest := dreqs[i][k+6:]
+			defs := "nodef"
+			if strings.HasPrefix(rest, "(") {
+				defs = balanced(rest, 0)
+			}
+			rest = strings.TrimLeft(rest[len(defs):], " ")
+			args := balanced(rest, 0)
+			dist[fmt.Sprintf("sites with %d arguments written", min(strings.Count(args, "(A "), 5))]++
+			dist[fmt.Sprintf("sites with %d arguments declared", min(strings.Count(defs, "(AD "), 8))]++
+			if strings.Contains(args, "(V 0 ") {
+				dist["sites whose arguments mention a variable"]++
+			}
+			if strings.Contains(args, "(C ") {
+				dist["sites with a list or object literal"]++
+			}
+		}
 		if strings.HasPrefix(want[i], "OK") {
 			st.ok++
 		} else {
@@ -234,6 +281,9 @@ func (c *Ctx) checkArgMaps(sdl string, report bool) {
 	for _, e := range st.specOther {
 		fmt.Println("   OTHER:", e[:min(700, len(e))])
 	}
+	printCounts("argmap distribution:", dist)
+	c.Ev.Extra["argmap_distribution"] = dist
+	c.Ev.Rule = "hand-written documents (every argument kind, custom-scalar literals, variables nested in lists/objects, directives at every location, several operations sharing a fragment, every operation executed) + generated schemas/documents (internal/gen) executed with generated conforming variables; every field and directive site"
 	c.Ev.Extra["argmap"] = map[string]int{"documents": st.docs, "documents_rejected_by_validation": st.invalid, "sites": st.sites, "go_ok": st.ok, "go_panic": st.panics,
 		"coercion_failed_pairs": st.nocoerce, "spec_checked_sites": st.specChecked, "spec_differs": st.specDiff, "spec_differs_by_links_only": st.specLinked}
 	c.Ev.Evals += st.sites
